@@ -330,7 +330,8 @@ def run(chk):
         "into the mask through such an array must discard the low end (or mark the high end) of an ordering of the spectrum "
         "restricted to the block it writes; K must be min(user limit, count strictly above relative tolerance), K==0 must be "
         "handled apart from the empty slice [:-0]; wrappers apply one mask to all three factors. Numerical optimality "
-        "(Eckart-Young) is not decided.")
+        "(Eckart-Young) is not decided."
+        ' Each scalar-or-dict dispatch of a user limit must test the limit whose value it selects (contradiction rule); the masking functions are index-space typed (engine E3) so that the mask hits the leg it was computed for.')
     chk.trusted_base = ["argsort returns an ascending permutation", "python ast parser"]
     chk.rule("D1", "stores of False discard ALL_BUT_K_LARGEST (stores of True mark K_LARGEST) of an ordering of the spectrum "
              "restricted to the addressed block", floor=4)
